@@ -238,8 +238,6 @@ func heapRefAxiom(name string, h Term, top Term) Term {
 		ref = func(x Term) Term { return x }
 	case *types.Slice:
 		ref = SlArr
-	case *types.Interface:
-		ref = IfVal
 	default:
 		return True
 	}
@@ -253,7 +251,8 @@ func heapRefAxiom(name string, h Term, top Term) Term {
 		}
 		cur = Select(cur, Var(n, SInt))
 	}
-	return ForallPat(bs, And(Le(IntLit(0), ref(cur)), Lt(ref(cur), top)), [][]Term{{cur}})
+	// only cells of objects that existed at entry: cells at or above top are unconstrained (later allocations live there)
+	return ForallPat(bs, Implies(Lt(Var("y0?", SInt), top), And(Le(IntLit(0), ref(cur)), Lt(ref(cur), top))), [][]Term{{cur}})
 }
 
 // heapRangeAxiom: every value stored in a heap of sized integers lies in the type's range
